@@ -1,7 +1,7 @@
 SPECIFICATION Spec
 CONSTANTS
   NV = 2
-  StabV = {}
+  StabV = {2}
   NP = 2
   UseQueue = TRUE
   SkipQueue = FALSE
@@ -13,7 +13,7 @@ CONSTANTS
   AutoApprove = TRUE
   Opts = {}
   ReportOnce = TRUE
-  MaxLevel = 10
+  MaxLevel = 13
   EmitJson = FALSE
   AtomicPush = TRUE
   FixSelect = TRUE
